@@ -84,5 +84,6 @@ def run(chk, fb, tier):
     # C16.b = C12.a/b: a save mutates only objects it created
     C12.rule_no_effect(chk, fb, "C16.b")
     rule_locks(chk, fb)
+    C12.rule_clone_complete(chk, fb, "C16.d")
     chk.assume("std::sync::RwLock gives mutual exclusion; a save-local object cannot be observed by another thread (it is never stored in shared state)")
     chk.note("schedule quantifier discharged by non-interference, not by enumerating interleavings")
